@@ -441,6 +441,84 @@ fn callback_family(input: &[u8], level: i32, zlib: bool, place: Place) -> Result
     Ok(n)
 }
 
+
+/// One compressor object re-initialised with tdefl_init between two jobs, in all four
+/// combinations of (callback, caller buffer) mode: the second job must behave like the Rust call
+/// on a new CompressorOxide, whatever the first job was and however far it got.
+fn reinit_family(input: &[u8], level: i32, zlib: bool, place: Place) -> Result<u64, String> {
+    use miniz_oxide::deflate::core::compress_to_output;
+    let mut n = 0u64;
+    let flags = create_comp_flags_from_zip_params(level, if zlib { 15 } else { -15 }, 0);
+    unsafe {
+        for first_cb in [false, true] {
+            for second_cb in [false, true] {
+                for first_len in [0usize, input.len().min(300), input.len()] {
+                    let mut sink1 = Sink { data: vec![], calls: 0, fail_at: usize::MAX };
+                    let mut sink2 = Sink { data: vec![], calls: 0, fail_at: usize::MAX };
+                    let d = c::tdefl_allocate();
+                    let cb1: Option<unsafe extern "C" fn(*const c_void, c_int, *mut c_void) -> i32> = if first_cb { Some(sink_put) } else { None };
+                    if c::tdefl_init(d.as_mut(), cb1, &mut sink1 as *mut Sink as *mut c_void, flags as c_int) as i32 != 0 {
+                        c::tdefl_deallocate(d);
+                        return Err("tdefl_init (first job) failed".into());
+                    }
+                    // first job: first_len bytes, not finished (abandoned)
+                    let (inp, _) = capi::pooled(first_len, place, 10);
+                    std::ptr::copy_nonoverlapping(input.as_ptr(), inp, first_len);
+                    if first_cb {
+                        let _ = c::tdefl_compress_buffer(d.as_mut(), inp as *const c_void, first_len, c::tdefl_flush::TDEFL_SYNC_FLUSH);
+                    } else {
+                        let (outp, _) = capi::pooled(LARGE, place, 11);
+                        let (mut a, mut b) = (first_len, LARGE);
+                        let _ = c::tdefl_compress(d.as_mut(), inp as *const c_void, Some(&mut a), outp as *mut c_void, Some(&mut b), c::tdefl_flush::TDEFL_SYNC_FLUSH);
+                    }
+                    n += 1;
+                    // second job on the re-initialised object
+                    let cb2: Option<unsafe extern "C" fn(*const c_void, c_int, *mut c_void) -> i32> = if second_cb { Some(sink_put) } else { None };
+                    if c::tdefl_init(d.as_mut(), cb2, &mut sink2 as *mut Sink as *mut c_void, flags as c_int) as i32 != 0 {
+                        c::tdefl_deallocate(d);
+                        return Err("tdefl_init (second job) failed".into());
+                    }
+                    let (inp, _) = capi::pooled(input.len(), place, 10);
+                    std::ptr::copy_nonoverlapping(input.as_ptr(), inp, input.len());
+                    let mut r = CompressorOxide::new(flags);
+                    let what = format!("first job: {} bytes in {} mode, second job in {} mode", first_len, if first_cb { "callback" } else { "buffer" }, if second_cb { "callback" } else { "buffer" });
+                    if second_cb {
+                        let st = c::tdefl_compress_buffer(d.as_mut(), inp as *const c_void, input.len(), c::tdefl_flush::TDEFL_FINISH) as i32;
+                        let mut rdata = vec![];
+                        let (rst, _) = compress_to_output(&mut r, input, TDEFLFlush::Finish, |o: &[u8]| {
+                            rdata.extend_from_slice(o);
+                            true
+                        });
+                        n += 1;
+                        if st != rst as i32 || sink2.data != rdata {
+                            c::tdefl_deallocate(d);
+                            return Err(format!("re-initialised compressor ({}): tdefl_compress_buffer -> {} with {} bytes, Rust -> {} with {} bytes", what, st, sink2.data.len(), rst as i32, rdata.len()));
+                        }
+                    } else {
+                        let cap = input.len() + input.len() / 4 + 400;
+                        let (outp, _) = capi::pooled(cap, place, 11);
+                        let (mut a, mut b) = (input.len(), cap);
+                        let st = c::tdefl_compress(d.as_mut(), inp as *const c_void, Some(&mut a), outp as *mut c_void, Some(&mut b), c::tdefl_flush::TDEFL_FINISH) as i32;
+                        let mut rbuf = vec![0u8; cap];
+                        let (rst, rin, rout) = compress(&mut r, input, &mut rbuf, TDEFLFlush::Finish);
+                        n += 1;
+                        if st != rst as i32 || a != rin || b != rout || std::slice::from_raw_parts(outp, b.min(cap)) != &rbuf[..rout] {
+                            c::tdefl_deallocate(d);
+                            return Err(format!("re-initialised compressor ({}): tdefl_compress -> ({}, {}, {}), Rust compress -> ({}, {}, {})", what, st, a, b, rst as i32, rin, rout));
+                        }
+                        if sink1.calls != 0 && !first_cb || sink2.calls != 0 {
+                            c::tdefl_deallocate(d);
+                            return Err(format!("re-initialised compressor ({}): a put-buffer callback was invoked in buffer mode", what));
+                        }
+                    }
+                    c::tdefl_deallocate(d);
+                }
+            }
+        }
+    }
+    Ok(n)
+}
+
 /// tdefl_create_comp_flags_from_zip_params == create_comp_flags_from_zip_params on every argument triple.
 fn flags_sweep(rep: &Report) -> u64 {
     let mut n = 0;
@@ -898,7 +976,7 @@ pub fn run(tier: &str) -> i32 {
         watchdog::tick(ix as u64, 1);
         let (i, level, zl, pl) = pitems[ix];
         let place = if pl == 0 { Place::End } else { Place::Start };
-        match guarded(|| pairwise(&pair_inputs[i].data, level, zl, place).and_then(|a| callback_family(&pair_inputs[i].data, level, zl, place).map(|b| a + b))) {
+        match guarded(|| pairwise(&pair_inputs[i].data, level, zl, place).and_then(|a| callback_family(&pair_inputs[i].data, level, zl, place).map(|b| a + b)).and_then(|a| reinit_family(&pair_inputs[i].data, level, zl, place).map(|b| a + b))) {
             Ok(Ok(n)) => *acc += n,
             Ok(Err(e)) => rep.violation(
                 &format!("C17/pairwise/{}", e.split(|c: char| c == ':' || c == '(' || c == ' ').next().unwrap_or("")),
